@@ -3563,9 +3563,18 @@ class Association(threading.Thread):
             # Clear out any C-CANCEL requests received beforehand
             self.dimse.cancel_req = {}
             # In case the SCP calls one of the send_* methods
-            self._is_paused = True
+            #   Only when we are the reactor: an N-EVENT-REPORT request is
+            #   served in its own thread and the reactor, which may be paused
+            #   at its checkpoint at that moment, keeps track of its own state
+            in_reactor = threading.current_thread() is self
+            if in_reactor:
+                self._is_paused = True
+
             service_class.SCP(msg, context)
-            self._is_paused = False
+
+            if in_reactor:
+                self._is_paused = False
+
             # Clear out any unacted upon requests received during
             self.dimse.cancel_req = {}
         except NotImplementedError:
